@@ -247,3 +247,9 @@ func Scratch(prefix string) (string, func()) {
 	}
 	return d, func() { os.RemoveAll(d) }
 }
+
+// Get0 reads an int counter without locking (caller holds its own lock around Cov updates).
+func (r *Run) Get0(k string) int {
+	cur, _ := r.Cov[k].(int)
+	return cur
+}
